@@ -1005,6 +1005,11 @@ def directed_recipes():
                             {'op': 'transfer', 'src': {'p': 2, 'r': one(1, 1)}, 'dst': {'p': 4, 'r': row(1)}, 'q': q('10', 'u', 'L')},
                             {'op': 'transfer', 'src': {'c': 1}, 'dst': {'p': 4, 'r': row(0)}, 'q': q('25', 'u', 'L')}],
                   'stages': [{'name': 'st1', 'start': 0, 'stop': 1}], 'queries': []})
+    # a large vessel spiked again and again with a vanishing share of its content: every addition is an inflow
+    big = [{'t': 'c', 'name': 1, 'init': [[1, q('1', '', 'L')]]}, {'t': 'c', 'name': 2, 'init': [[1, q('1', 'm', 'L')], [4, q('58.44', 'u', 'g')]]}]
+    progs.append({'subs': subs, 'objects': big, 'prefill': [],
+                  'steps': [{'op': 'transfer', 'src': {'c': 2}, 'dst': {'c': 1}, 'q': q('10', 'n', 'L')} for _ in range(6)],
+                  'stages': [{'name': 'st1', 'start': 0, 'stop': 3}], 'queries': []})
     return progs
 
 
